@@ -100,7 +100,12 @@ macro_rules! ooo {
         #[kani::stub(alloc::collections::BTreeMap::new, crate::models::btmap::bt_new)]
         #[kani::stub(alloc::collections::BTreeMap::insert, crate::models::btmap::bt_insert)]
         #[kani::stub(alloc::collections::BTreeMap::remove_entry, crate::models::btmap::Bt::remove_entry)]
+        #[kani::stub(alloc::collections::BTreeMap::remove, crate::models::btmap::Bt::remove)]
+        #[kani::stub(alloc::collections::BTreeMap::get, crate::models::btmap::Bt::get)]
         #[kani::stub(alloc::collections::BTreeMap::len, crate::models::btmap::bt_len)]
+        #[kani::stub(alloc::collections::BTreeMap::is_empty, crate::models::btmap::bt_is_empty)]
+        #[kani::stub(alloc::collections::BTreeMap::get_mut, crate::models::btmap::Bt::get_mut)]
+        #[kani::stub(alloc::collections::BTreeMap::contains_key, crate::models::btmap::Bt::contains_key)]
         fn $name() { $f(); }
     )*};
 }
@@ -143,3 +148,41 @@ fn c05_btmap_layout_sanity() {
     assert!(one[0] != 0 && one[1] == 0 && one[2] == 1);
     forget(m);
 }
+
+/// `SecretRatchets::message_key_generation` (the receive path's dispatch between a leaf's two ratchets): the
+/// request is served by the ratchet of the REQUESTED key type only, at the REQUESTED generation, whatever the
+/// other ratchet's generation is; the other ratchet is untouched (application and handshake never share keys).
+fn dispatch_case(app: bool) {
+    use mls_rs::verif::derive::SecretRatchets;
+    let uf = Uf::fresh();
+    let sa = any_bytes::<NH>();
+    let sh = any_bytes::<NH>();
+    let ga: u32 = kani::any();
+    let gh: u32 = kani::any();
+    kani::assume(ga <= u32::MAX - 2000 && gh <= u32::MAX - 2000);
+    let gap: u32 = kani::any();
+    kani::assume(gap <= 1);
+    let mut rs = SecretRatchets { application: ratchet_new(vec_of(sa), ga), handshake: ratchet_new(vec_of(sh), gh) };
+    let (kt, own) = if app { (KeyType::Application, ga) } else { (KeyType::Handshake, gh) };
+    let g = own + gap;
+    match rs.message_key_generation(&uf, g, kt) {
+        Ok(k) => {
+            let (_, _, kg) = message_key_parts(&k);
+            assert!(kg == g, "the key handed out is not the requested generation's");
+            let (mine, other, other_g, other_s) = if app { (&rs.application, &rs.handshake, gh, &sh) } else { (&rs.handshake, &rs.application, ga, &sa) };
+            assert!(ratchet_generation(mine) == g + 1, "the requested ratchet did not advance past the generation handed out");
+            assert!(ratchet_history_len(mine) as u32 == gap, "skipped generations of the requested ratchet are parked");
+            assert!(ratchet_generation(other) == other_g && rk::eq(ratchet_secret(other), other_s) && ratchet_history_len(other) == 0,
+                "a request for one key type touched the other key type's ratchet");
+            kani::cover!(gap == 1 && g == other_g, "skipping request whose generation equals the other ratchet's");
+            kani::cover!(gap == 0 && g != other_g);
+            forget(k);
+        }
+        Err(e) => { forget(e); assert!(false, "a request inside the window was refused"); }
+    }
+    forget(rs);
+    kani::cover!(true);
+}
+fn dispatch_app() { dispatch_case(true) }
+fn dispatch_hs() { dispatch_case(false) }
+ooo!(c05_dispatch_application: dispatch_app, 5; c05_dispatch_handshake: dispatch_hs, 5);
